@@ -816,7 +816,12 @@ func ruleBareObject(c *chk.Ctx) {
 			}
 			n++
 			var kinds []string
-			for _, cd := range ir.CondsAt(r.Block()) {
+			// (the test may be a one-line predicate of the list: expanded to its conditions)
+			conds := ir.CondsAt(r.Block())
+			if alts := expandPredicateHelpers(c, conds, 0); len(alts) == 1 {
+				conds = alts[0]
+			}
+			for _, cd := range conds {
 				if x, y, op, ok := ir.Rel(cd); ok {
 					_, isLen := ir.LenOf(x)
 					k, isC := ir.ConstInt(y)
